@@ -456,4 +456,7 @@ def run(facts, rep, tier, ctx):
     h.flush_publishes(rep, "R15.5")
     n = twin_rules(facts, rep, D)
     rep.floor("twin pairs compared", n, 70)
+    # the async physical metadata classifies like the sync one: Directory exactly under is_dir() (a socket / FIFO / device is a
+    # file on both sides), length 0 for directories and Metadata::len() otherwise — C04 R04.3
+    _c04.length_rules(facts, A, wa, D, "R15.A/R04.3")
     rep.assume("executor-level behaviour (wake-ups delivered) and async_std::fs vs std::fs agreement are trusted")
